@@ -545,7 +545,12 @@ class Ovld:
     def resolve(self, *args):
         """Find the correct method to call for the given arguments."""
         self.ensure_compiled()
-        return self.map[tuple(map(subtler_type, args))]
+        return self.map[self._lookup_key(args)]
+
+    def _lookup_key(self, args):
+        # The same key as the generated dispatch function builds
+        lookup_for = self.argument_analysis.lookup_for
+        return tuple(lookup_for(i)(arg) for i, arg in enumerate(args))
 
     def register_signature(self, sig, orig_fn):
         """Register a function for the given signature."""
@@ -654,7 +659,7 @@ class Ovld:
     def next(self, *args):
         """Call the next matching method after the caller, in terms of priority or specificity."""
         fr = sys._getframe(1)
-        key = (fr.f_code, *map(subtler_type, args))
+        key = (fr.f_code, *self._lookup_key(args))
         method = self.map[key]
         return method(*args)
 
